@@ -417,6 +417,27 @@ def written_annotations(fw):
     return pairs(sp_, 'PropensityType'), pairs(sd_, 'DelayType'), num_problem
 
 
+def check_rule_elements(ctx, far):
+    """The reader walks getListOfRules() only: every rule the writer is asked to write becomes an SBML rule element (assignment rule,
+    or rate rule for 'ode'), whatever its frequency - an InitialAssignment or an Event would be written and never read back."""
+    made = sorted({c.func.attr for c in ast.walk(far) if isinstance(c, ast.Call) and isinstance(c.func, ast.Attribute) and c.func.attr.startswith('create')
+                   and src(c.func.value) in ('model', 'sbml_model')})
+    readers = [fn_ for fn_ in ('import_sbml_rules',) if c14.get_func(ctx, fn_) is not None]
+    fr = c14.get_func(ctx, 'import_sbml_rules')
+    walks = sorted({c.func.attr for c in ast.walk(fr) if isinstance(c, ast.Call) and isinstance(c.func, ast.Attribute) and c.func.attr.startswith('getListOf')})
+    readable = set()
+    if 'getListOfRules' in walks:
+        readable |= {'createAssignmentRule', 'createRateRule', 'createAlgebraicRule'}
+    if 'getListOfInitialAssignments' in walks:
+        readable.add('createInitialAssignment')
+    if 'getListOfEvents' in walks:
+        readable.add('createEvent')
+    lost = [m_ for m_ in made if m_ not in readable]
+    ctx.ob('R12.2-exhaustive', 'rule-elements', bool(made) and not lost, ctx.loc('sbmlutil', far),
+           'every SBML element add_rule creates is of a kind import_sbml_rules reads (it walks %s)' % ', '.join(walks),
+           '' if not lost else 'add_rule writes %s, which the reader never looks at: the rule is lost on the way back' % ', '.join(lost))
+
+
 def check_annotation_present(ctx, fw):
     """The reader rebuilds a built-in propensity from its annotation; without one it reads the kinetic law as a general rate (another
     class, other volume / stochastic forms).  add_reaction is evaluated (c14.build) for every propensity type, both export modes and -
@@ -762,6 +783,7 @@ def check(ctx):
     c14.check_printer_language(ctx, 'R12.5-formula-language', 'import_sbml_rules', 'reader-printer/rule')
     fw, far = check_keys(ctx)
     check_annotation_present(ctx, fw)
+    check_rule_elements(ctx, far)
     check_str_wrapped(ctx, fw, far)
     check_exhaustive(ctx, fw, far)
     check_forwarding(ctx)
